@@ -61,6 +61,12 @@ def run(ctx):
   ctx.borrow(c03.rule_tree, "R-C07-TREE")
   ctx.borrow(c03.rule_remainder, "R-C07-TREE")
   ctx.expect("R-C07-TREE", 15, "product and remainder tree obligations")
+  # identical EC keys do not accuse each other (shared with C10), and nothing a check leaves on its cached instance or on a curve can accuse a healthy
+  # artifact in a later call (shared with C17)
+  from . import c10
+  ctx.borrow(c10.rule_dup, "R-C07-REPEAT")
+  ctx.borrow(c17.rule_stateless, "R-C07-REPEAT")
+  ctx.expect("R-C07-REPEAT", 11, "duplicate-key rows of the difference search + state scan")
   ctx.expect("R-C07-NEIGHBOUR", 2 + 24 + 2, "BatchGCD element-wise + per-curve partitions + one fresh entry per artifact in 24 Check bodies")
   ctx.expect("R-C07-BOUNDS", 7, "seven thresholds")
   ctx.expect("R-C07-EXACT", 29, "29 registered checks")
